@@ -842,8 +842,11 @@ Proof.
   - destruct (eval_iter e m) as [i m1] eqn:E. cbn in H. inversion H; subst. cbn. eapply IH; eauto.
 Qed.
 
-Lemma m_next_stack : forall id m v m', m_next id m = Some (v, m') -> stack m' = stack m.
-Proof. intros id m v m' H. unfold m_next in H. destruct (obj_next OFUEL (ms m) id) as [[w s]|]; inversion H; subst. reflexivity. Qed.
+Lemma m_next_stack : forall ofuel id m v m', m_next ofuel id m = Some (v, m') -> stack m' = stack m.
+Proof.
+  intros ofuel id m v m' H. unfold m_next in H. destruct (obj_next ofuel (ms m) id) as [[w s]|]; [|discriminate].
+  injection H as _ <-. reflexivity.
+Qed.
 
 Lemma removelast_length : forall {A} (l : list A), length (removelast l) = length l - 1.
 Proof.
